@@ -115,6 +115,10 @@ Definition mapping_strict : bool :=
 Definition new_index_mapping : option value :=
   conv_dflt dflt_fuel root_kind XMapping.new_index_mapping.
 
+(* the value NewDocumentMapping() returns *)
+Definition new_document_mapping : option value :=
+  conv_dflt dflt_fuel (KPtrS (s2b "DocumentMapping")) XMapping.new_document_mapping.
+
 (* Fields that may be missing from the JSON.  `cache` (IndexMappingImpl) is the registry of built
    analysis components: UnmarshalJSON replaces it by a new cache and refills it from CustomAnalysis
    (registerAll), and NewIndexMapping / AddCustom* keep it in step with CustomAnalysis, so it holds
